@@ -1600,6 +1600,7 @@ fn exec_repair(variant: &str, seed: u64) -> String {
         }
     }
     let opts = RepairIndexOptions::default().read_all(readall);
+    let mut dry_reads: Option<BTreeSet<Id>> = None;
     if dry {
         // a dry run first: it reads (index files, pack headers) but must not change a single file of any type in any part
         let before = stores_of(&sc.h);
@@ -1613,12 +1614,14 @@ fn exec_repair(variant: &str, seed: u64) -> String {
                 return errkind(&e);
             }
         }
-        if let Err(e) = header_reads_rule(&take_pack_reads(&sc.h), &types) {
+        let reads = take_pack_reads(&sc.h);
+        if let Err(e) = header_reads_rule(&reads, &types) {
             return e;
         }
         if let Some(d) = stores_diff(&before, &stores_of(&sc.h)) {
             return format!("oracle-fail:dry-run-changed-storage:{d}");
         }
+        dry_reads = Some(reads.iter().map(|r| r.id).collect());
     }
     _ = take_pack_reads(&sc.h);
     {
@@ -1630,8 +1633,13 @@ fn exec_repair(variant: &str, seed: u64) -> String {
             return errkind(&e);
         }
     }
-    if let Err(e) = header_reads_rule(&take_pack_reads(&sc.h), &types) {
+    let reads = take_pack_reads(&sc.h);
+    if let Err(e) = header_reads_rule(&reads, &types) {
         return e;
+    }
+    // theorem `dry_run_reads_same_headers`: the dry run read the headers of exactly the packs the real run reads
+    if dry_reads.is_some_and(|d| d != reads.iter().map(|r| r.id).collect::<BTreeSet<Id>>()) {
+        return "differs:dry-run-read-other-pack-headers".into();
     }
     // packs = index: every stored pack is listed (again), nothing else is
     if let Err(e) = packs_eq_index(&sc.h) {
@@ -1875,9 +1883,11 @@ fn exec_rix(read_all: bool, packs: &str, files: &str, dry_first: bool) -> String
         Ok(format!("{} ?{unknown}", if v.is_empty() { "-".to_string() } else { v.join(",") }))
     };
     let mut out = String::from("ok ");
+    let mut dry_reads: Option<BTreeSet<Id>> = None;
     if dry_first {
         // `rixd`: a dry run first — no file of any type may change; its observation is the index as it is afterwards
         let before = stores_of(&h);
+        _ = take_pack_reads(&h);
         {
             let repo = match h.open_nocache() {
                 Ok(r) => r,
@@ -1890,11 +1900,13 @@ fn exec_rix(read_all: bool, packs: &str, files: &str, dry_first: bool) -> String
         if let Some(d) = stores_diff(&before, &stores_of(&h)) {
             return format!("oracle-fail:dry-run-changed-storage:{d}");
         }
+        dry_reads = Some(take_pack_reads(&h).iter().map(|r| r.id).collect());
         match observe(&h) {
             Ok(o) => out.push_str(&format!("{o} / ")),
             Err(e) => return e,
         }
     }
+    _ = take_pack_reads(&h);
     {
         let repo = match h.open_nocache() {
             Ok(r) => r,
@@ -1903,6 +1915,10 @@ fn exec_rix(read_all: bool, packs: &str, files: &str, dry_first: bool) -> String
         if let Err(e) = repo.repair_index(&RepairIndexOptions::default().read_all(read_all), false) {
             return errkind(&e);
         }
+    }
+    // theorem `dry_run_reads_same_headers`
+    if dry_reads.is_some_and(|d| d != take_pack_reads(&h).iter().map(|r| r.id).collect::<BTreeSet<Id>>()) {
+        return "differs:dry-run-read-other-pack-headers".into();
     }
     match observe(&h) {
         Ok(o) => out.push_str(&o),
